@@ -25,6 +25,8 @@ pub struct ExecCfg {
 
 impl ExecCfg {
     pub fn from_args(args: &Args) -> Self {
+        // additionally yield after every load (plain accesses that follow a load become separable)
+        sched::set_yield_after_loads(args.flag("yield-after-loads"));
         ExecCfg {
             mode: args.get_or("mode", "dfs"),
             bound: args.num("bound", 2) as usize,
